@@ -309,9 +309,26 @@ func (t *LiteTable) Index(name string) *LiteIndex {
 	return nil
 }
 
+// RowidKeyword gives the rowid keyword that no declared column shadows
+// ("" if all three are taken: the rowid is then not accessible)
+func RowidKeyword(cols []string) string {
+	for _, kw := range []string{"rowid", "_rowid_", "oid"} {
+		shadowed := false
+		for _, c := range cols {
+			if strings.EqualFold(c, kw) {
+				shadowed = true
+			}
+		}
+		if !shadowed {
+			return kw
+		}
+	}
+	return ""
+}
+
 func (t *LiteTable) PKOrder(l *lite.DB) string {
 	if !t.WithoutRowid {
-		return "rowid"
+		return RowidKeyword(t.Cols)
 	}
 	// the pk index of a WITHOUT ROWID table
 	for i := range t.Indexes {
